@@ -435,7 +435,13 @@ def match(exp, act, path='$', check_set=True) -> t.Optional[str]:
         cls = grammar.dc_class(exp.leaf) if exp.leaf in grammar.DC_SPECS else None
         if cls is not None and type(act) is not cls:
             return f"{path}: expected instance of {cls.__name__}, got {type(act).__name__}"
+        excluded = set()
+        if not check_set and exp.leaf in grammar.DC_SPECS:
+            # (check_set=False: the value went through its serialised form - fields the user excluded from output are not part of it)
+            excluded = {f['name'] for f in grammar.DC_SPECS[exp.leaf]['fields'] if f.get('exclude')}
         for name, e in exp.fields.items():
+            if name in excluded:
+                continue
             if not hasattr(act, name):
                 return f"{path}.{name}: attribute missing"
             m = match(e, getattr(act, name), f"{path}.{name}", check_set)
@@ -520,7 +526,9 @@ def _members(ast) -> t.List[t.Any]:
             out.append((m[1],))
         if len(m) > 2:
             out.append([m[2], m[0], m[1]])
-        if c in ('set', 'frozenset'):
+        if c in ('set', 'frozenset') and not (isinstance(ast[1], str) and ast[1] in grammar.DC_SPECS):
+            # (element DATA that is unhashable means an unhashable image - except for dataclasses, whose data is a mapping
+            #  but whose instances are hashable when the class is frozen)
             out = [x for x in out if _hashable_data(x)]
         return out
     if c in ('tuple', 'tuplelit'):
